@@ -25,6 +25,10 @@ CHECKS = {
          "Generated-input search: every extracted sample must equal the single evaluation of its state (objective, constraints with metadata, both flags, state, variables), tables keyed by exactly the submitted ids, invariant under re-grouping.",
          "Single-sample evaluation is the reference (tied to the independent model by C05); states in-bound; sample ids distinct.",
          "DESIGN.md §5 C06"),
+ "C07": ("independent schema-driven codec: proptest-driven random dynamic messages for every message type from two descriptor sources (.proto text, protoc descriptors embedded in the Python bindings), encoded in random legal layouts, decoded by the Rust bindings, projected by field name and re-encoded; exhaustive sweeps for descriptor agreement (.proto vs Python vs #[prost] attributes), every enum value and the bundled old artifact",
+         "Generated-input search against a codec and schema readers that share nothing with prost/protoc; the finite configuration space (all 31 messages, all fields, all enum numbers, three descriptor sources) is enumerated completely in every run.",
+         "Python runtime not installed: the Python bindings are represented by their serialized descriptors; NaN excluded; -0.0 kept out of implicit-presence doubles and map values (prost quirk).",
+         "DESIGN.md §5 C07"),
  "C08": ("fault enumeration inside proptest-generated valid bases: every single fault at every position (duplicate ids, undefined ids in three syntactic places, each unset required field, each invalid bound shape, hint and dependency faults) plus generated pairs, against an independent well-formedness predicate with expected error class and path",
          "Per generated base instance the single-fault space is enumerated completely; validate() must fail iff one of its three rules is broken, the typed conversion must fail with the matching error class and outermost path for every listed rule and accept (with equal typed content, also under permutation) every well-formed base.",
          "Whether the typed conversion rejects undefined variable ids inside functions is not asserted (statement lists it under validation).",
